@@ -67,6 +67,10 @@ def run(ctx):
         st = cm.solar_time_n(n0 + d, h * 3600 + 1799)
         sh = I.call('SixtyCycleHour::from_solar_time', [st])
         ec = t.m(sh, 'get_eight_char')
+        scd = t.m(sh, 'get_sixty_cycle_day')      # the day value the instant-level view reports: its own (rolled, instant-level) day, not the civil day's
+        if (t.name(t.m(scd, 'get_sixty_cycle')), t.name(t.m(scd, 'get_year')), t.name(t.m(scd, 'get_month'))) != (t.name(t.m(sh, 'get_day')), t.name(t.m(sh, 'get_year')), t.name(t.m(sh, 'get_month'))):
+            return 'SixtyCycleHour::get_sixty_cycle_day reports %s %s %s, the view itself %s %s %s' % (t.name(t.m(scd, 'get_year')), t.name(t.m(scd, 'get_month')), t.name(t.m(scd, 'get_sixty_cycle')),
+                                                                                                    t.name(t.m(sh, 'get_year')), t.name(t.m(sh, 'get_month')), t.name(t.m(sh, 'get_day')))
         return (t.name(t.m(sh, 'get_day')), t.name(t.m(sh, 'get_sixty_cycle')), py(t.m(sh, 'get_index_in_day')), t.name(ec))
 
     def inst_orc(x):
